@@ -18,8 +18,8 @@ import (
 
 type c19Prefix struct {
 	Host, Path string
-	Dir        string            // directory configured for the prefix
-	Sub        string            // sub-directory the URL space maps to ("" for logs, "<hash>" / "mirror/<hash>" for witness)
+	Dir        string // directory configured for the prefix
+	Sub        string // sub-directory the URL space maps to ("" for logs, "<hash>" / "mirror/<hash>" for witness)
 	Index      map[[32]byte]string
 	Kind       string // log | witness | mirror
 }
